@@ -121,6 +121,11 @@ func (conn *Conn) recv() {
 				/* forget the reply this buffer carried last time: the post-handlers
 				 * of a request that is cancelled before it is answered look at Rc.Type */
 				req.Rc.Type = 0
+				/* a buffer allocated before the msize negotiation must not carry a
+				 * reply larger than the negotiated msize */
+				if len(req.Rc.Buf) > int(conn.Msize) {
+					req.Rc.Buf = req.Rc.Buf[:conn.Msize]
+				}
 			default:
 				req.Rc = NewFcall(conn.Msize)
 			}
